@@ -200,3 +200,38 @@ def dense_specs():
         terms = [(mons[i], [1 if j == pos else 0 for j in range(n)]) for pos, i in enumerate(order)]
         out.append((f"{len(names)} names deg{'=' if exact else '<='}{deg} the {n} monomials as an array", spec(names, (n,), terms)))
     return out
+
+
+INF = float("inf")
+
+
+def nonfinite_universe(names=("q0", "q1")):
+    """every polynomial with at most 2 terms over the monomials of degree <= 1 (and q0**2) with coefficients from
+    {inf, -inf, 1.0, 2.0}: infinite coefficients are floats like any other (equal infinities compare equal, a term with
+    an infinite coefficient is a term).  nan is left out: it is not equal to itself, so no order or equality is defined."""
+    return universe(names, 1, 2, [INF, -INF, 1.0, 2.0]) + [[((2,) + (0,) * (len(names) - 1), INF), ((0,) * len(names), 1.0)]]
+
+
+def nonfinite_specs():
+    """a few float / complex polynomials and arrays with infinite coefficients -> list of specs"""
+    n2 = ("q0", "q1")
+    out = [
+        spec(n2, (), [((1, 0), INF), ((0, 0), 2.0)], "f8"), spec(n2, (), [((1, 0), INF), ((0, 0), 1.0)], "f8"),
+        spec(n2, (), [((1, 1), -INF), ((2, 0), 1.0), ((0, 0), 3.0)], "f8"),
+        spec(n2, (2,), [((0, 1), [INF, 1.0]), ((1, 0), [2.0, -INF]), ((0, 0), [0.0, 1.0])], "f8"),
+        spec(n2, (2,), [((1, 1), [INF, 0.0]), ((2, 0), [1.0, 2.0])], "f8"),
+        spec(("q1", "q2"), (), [((1, 1), INF), ((0, 0), -1.0)], "f8"),
+        spec(n2, (), [((0, 0), INF)], "f8"),
+    ]
+    return out
+
+
+def long_array_specs():
+    """arrays with MANY elements along an axis (65 .. 130): regimes where blocked / chunked algorithms leave a remainder"""
+    n2 = ("q0", "q1")
+    pool = [[((1, 0), 1)], [((0, 1), 2), ((0, 0), -1)], [((0, 0), 3)], [((1, 1), 1)], [], [((2, 0), -1), ((0, 0), 1)], [((0, 1), 1)]]
+    out = []
+    for shape in ((65,), (67,), (130,), (2, 67), (67, 2), (65, 1), (1, 66)):
+        for rot in (0, 3):
+            out.append((f"long {shape} rot{rot}", array_spec(n2, shape, fill(pool, shape, rot, 1 if rot == 0 else 2))))
+    return out
